@@ -198,7 +198,8 @@ pub struct ExecOut {
     pub obs_digest: u64,
 }
 
-fn uid_check(css: &str) -> Option<String> {
+/// Returns (class, detail).
+fn uid_check(css: &str) -> Option<(String, String)> {
     // all `u: <id>` values pairwise distinct and valid CSS identifiers
     let mut ids = vec![];
     for l in css.lines() {
@@ -208,7 +209,7 @@ fn uid_check(css: &str) -> Option<String> {
         }
     }
     if ids.is_empty() {
-        return Some(format!("no unique-id() results in the output: {:?}", css.chars().take(200).collect::<String>()));
+        return Some(("unique-id(missing)".into(), format!("no unique-id() results in the output: {:?}", css.chars().take(200).collect::<String>())));
     }
     let mut seen = std::collections::BTreeSet::new();
     for id in &ids {
@@ -216,10 +217,10 @@ fn uid_check(css: &str) -> Option<String> {
         let first = ch.next().unwrap_or('0');
         let valid_first = first.is_ascii_alphabetic() || first == '_' || (first == '-' && id.len() > 1);
         if !valid_first || !id.chars().all(|c| c.is_ascii_alphanumeric() || c == '-' || c == '_') {
-            return Some(format!("unique-id() returned {:?}, not a valid identifier", id));
+            return Some(("unique-id(invalid)".into(), format!("unique-id() returned {:?}, not a valid identifier", id)));
         }
         if !seen.insert(id.clone()) {
-            return Some(format!("unique-id() returned {:?} twice within one compilation ({} calls)", id, ids.len()));
+            return Some(("unique-id(duplicate)".into(), format!("unique-id() returned {:?} twice within one compilation ({} calls)", id, ids.len())));
         }
     }
     None
@@ -324,11 +325,11 @@ pub fn execute(case: &SchedCase, proc_refs: &[((usize, usize), String, String)])
             hist = mix(hist, hash_bytes(3, case.threads[tid].jobs[k].to_json().to_string().as_bytes()));
             if uid {
                 if let Some(css) = o.observable.strip_prefix("OK\n") {
-                    if let Some(p) = uid_check(css) {
-                        out.violations.push(("unique-id".into(), p, tid, k));
+                    if let Some((c, p)) = uid_check(css) {
+                        out.violations.push((c, p, tid, k));
                     }
                 } else {
-                    out.violations.push(("unique-id".into(), format!("unique-id program failed: {}", o.observable.chars().take(200).collect::<String>()), tid, k));
+                    out.violations.push(("unique-id(failed)".into(), format!("unique-id program failed: {}", o.observable.chars().take(200).collect::<String>()), tid, k));
                 }
                 continue;
             }
@@ -609,6 +610,89 @@ fn gen_template(rng: &mut Rng, density: f64) -> JobSpec {
     spec
 }
 
+/// Mutate-then-observe histories: the first job does something that a compiler keeping state
+/// between compilations (a module, configuration, function, variable, extension or context
+/// table that outlives its compilation) would remember; the second job, on the same thread
+/// right after it or one job later, would then see it. Both are judged like every other job:
+/// against their own pristine reference.
+fn gen_history_pair(rng: &mut Rng, density: f64) -> (JobSpec, JobSpec) {
+    let mk = |label: &str, files: Vec<(&str, String)>, entry: Result<&str, String>| {
+        let mut j = JobSpec::default();
+        j.cwd = "/t".into();
+        j.eval_fuel = 1_000_000;
+        j.label = label.to_string();
+        for (p, t) in files {
+            j.files.push((p.to_string(), t.into_bytes()));
+        }
+        j.entry = match entry {
+            Ok(p) => Entry::Path(p.to_string()),
+            Err(t) => Entry::Text(t),
+        };
+        j
+    };
+    let y = yields(rng, density);
+    let which = rng.below(9);
+    let (a, b) = match which {
+        0 => {
+            // a built-in module's variable assigned through a plain @forward of that module
+            let var = *rng.pick(&["pi", "e", "epsilon", "max-safe-integer"]);
+            let first = mk("pair0:first", vec![("/t/_tok.scss", "@forward \"sass:math\";\n".into()), ("/t/main.scss", format!("@use \"tok\";\n{}tok.${}: 4;\na {{ b: tok.${}; }}\n", y, var, var))], Ok("/t/main.scss"));
+            let second = mk("pair0:second", vec![], Err(format!("@use \"sass:math\";\n{}a {{ pi: math.$pi; e: math.$e; eps: math.$epsilon; msi: math.$max-safe-integer; c: math.$pi * 2; }}\n@if math.$pi > 3.5 {{ @warn \"pi is off\"; }}\n", y)));
+            (first, second)
+        }
+        1 => {
+            // a module configured by the first compilation, used bare by the second
+            let lib = "$c: red !default;\n$d: 1 !default;\n.lib { c: $c; d: $d; }\n".to_string();
+            let first = mk("pair1:first", vec![("/t/_lib.scss", lib.clone()), ("/t/main.scss", format!("@use \"lib\" with ($c: blue, $d: 2);\n{}a {{ b: lib.$c; }}\n", y))], Ok("/t/main.scss"));
+            let second = mk("pair1:second", vec![("/t/_lib.scss", lib), ("/t/main.scss", format!("@use \"lib\";\n{}a {{ b: lib.$c; d: lib.$d; }}\n", y))], Ok("/t/main.scss"));
+            (first, second)
+        }
+        2 => {
+            // user-defined callables that shadow global built-ins
+            let first = mk("pair2:first", vec![], Err(format!("@function rgb($a...) {{ @return shadowed; }}\n@function lighten($c, $a) {{ @return l; }}\n@mixin m {{ x: y; }}\n{}a {{ b: rgb(1, 2, 3); c: lighten(red, 10%); @include m; }}\n", y)));
+            let second = mk("pair2:second", vec![], Err(format!("{}a {{ b: rgb(1, 2, 3); c: lighten(red, 10%); d: function-exists(m); e: mixin-exists(m); f: function-exists(rgb); }}\n", y)));
+            (first, second)
+        }
+        3 => {
+            // global variables
+            let first = mk("pair3:first", vec![], Err(format!("$g: 1;\n{}a {{ $g: 2 !global; b: $g; }}\n$h: 3;\n", y)));
+            let second = mk("pair3:second", vec![], Err(format!("{}a {{ b: variable-exists(g); c: global-variable-exists(h); }}\n$g: 5 !default;\nd {{ e: $g; }}\n", y)));
+            (first, second)
+        }
+        4 => {
+            // extensions and placeholders
+            let first = mk("pair4:first", vec![], Err(format!("%p {{ x: y; }}\n.a {{ @extend %p; }}\n{}.b {{ @extend .a; }}\n.c {{ z: w; }}\n.e {{ @extend .c; }}\n", y)));
+            let second = mk("pair4:second", vec![], Err(format!("%p {{ x: y; }}\n.a {{ q: r; }}\n{}.c {{ z: w; }}\n.d {{ @extend .c; }}\n", y)));
+            (first, second)
+        }
+        5 => {
+            // the same paths with other contents
+            let first = mk("pair5:first", vec![("/t/_dep.scss", "$v: one;\n.dep { from: first; }\n".into()), ("/t/main.scss", format!("@use \"dep\";\n{}a {{ b: dep.$v; }}\n", y))], Ok("/t/main.scss"));
+            let second = mk("pair5:second", vec![("/t/_dep.scss", "$v: two;\n.dep { from: second; }\n".into()), ("/t/main.scss", format!("@use \"dep\";\n{}a {{ b: dep.$v; }}\n", y))], Ok("/t/main.scss"));
+            (first, second)
+        }
+        6 => {
+            // a compilation that fails deep inside nested contexts, then an ordinary one
+            let ctxs = ["@media print { a { b { @error \"stop\"; } } }\n", "@keyframes k { from { @error \"stop\"; } }\n", "@mixin m { @content; }\na { @include m { @at-root { c { @error \"stop\"; } } } }\n", "@function f() { @error \"stop\"; }\n@supports (a: b) { x { y: f(); } }\n", "@use \"sass:meta\";\n@mixin n { q { @error \"stop\"; } }\np { @include meta.apply(meta.get-mixin(\"n\")); }\n"];
+            let first = mk("pair6:first", vec![], Err(format!("{}{}", y, rng.pick(&ctxs))));
+            let second = mk("pair6:second", vec![], Err(format!("{}a {{ b: c; & d {{ e: f; }} }}\nfrom {{ g: h; }}\n@media screen {{ i {{ j: k; }} }}\n", y)));
+            (first, second)
+        }
+        7 => {
+            // the same program twice: every diagnostic has to be delivered again
+            let t = format!("@function f($x) {{ @warn \"w#{{$x}}\"; @debug \"d#{{$x}}\"; @return $x; }}\n{}a {{ b: f(1) f(1) f(2); }}\n@warn \"top\";\n@warn \"top\";\n", y);
+            (mk("pair7:first", vec![], Err(t.clone())), mk("pair7:second", vec![], Err(t)))
+        }
+        _ => {
+            // a failed load of a module, then a successful load of the same path
+            let first = mk("pair8:first", vec![("/t/_m.scss", "$v: 1;\n@error \"broken module\";\n".into()), ("/t/_n.scss", "@use \"m\";\n".into()), ("/t/main.scss", format!("@use \"n\";\n{}a {{ b: c; }}\n", y))], Ok("/t/main.scss"));
+            let second = mk("pair8:second", vec![("/t/_m.scss", "$v: 1;\n.m { ok: yes; }\n".into()), ("/t/_n.scss", "@use \"m\";\n".into()), ("/t/main.scss", format!("@use \"n\";\n@use \"m\";\n{}a {{ b: m.$v; }}\n", y))], Ok("/t/main.scss"));
+            (first, second)
+        }
+    };
+    (a, b)
+}
+
 fn gen_job(rng: &mut Rng, ctx: &Ctx, pools: &Pools, density: f64) -> JobSpec {
     let r = rng.below(100);
     let mut j = if r < 40 {
@@ -684,6 +768,14 @@ fn gen_case(rng: &mut Rng, ctx: &Ctx, pools: &Pools) -> SchedCase {
                 jobs.push(again);
             }
         }
+        // a mutate-then-observe pair somewhere in this thread's history
+        if rng.chance(0.2) {
+            let (a, b) = gen_history_pair(rng, density);
+            let at = rng.usize_below(jobs.len() + 1);
+            jobs.insert(at, a);
+            let gap = if rng.chance(0.3) && at + 1 < jobs.len() { 1 } else { 0 };
+            jobs.insert(at + 1 + gap, b);
+        }
         let entropy = if rng.chance(0.15) { REF_KEY } else { rng.next_u64() | 1 };
         let heap_shift = if rng.chance(0.5) { 0 } else { rng.range(1, 4096) as usize };
         threads.push(SimThread { entropy, heap_shift, jobs });
@@ -715,7 +807,7 @@ fn gen_uid_case(rng: &mut Rng) -> SchedCase {
     let common = rng.next_u64();
     let mut threads = vec![];
     for _ in 0..nthreads {
-        let n = *rng.pick(&[1u64, 2, 10, 100, 500]);
+        let n = *rng.pick(&[1u64, 2, 10, 100, 500, 500, 5000, 5000, 70_000]);
         let mut text = String::from("a {\n");
         text.push_str(&format!("@for $i from 1 through {} {{ u: unique-id(); }}\n}}\n", n));
         // @for inside a rule repeats the declaration name; fine for the check (one per line)
@@ -874,6 +966,9 @@ impl Engine for SchedEngine {
                             }
                             if j.eval_fuel < 100 {
                                 res.bump("probe.fuel_exhausted_job_in_history", 1);
+                            }
+                            if j.label.starts_with("pair") && j.label.ends_with(":second") {
+                                res.bump("probe.mutate_then_observe_pair_in_history", 1);
                             }
                         }
                         if t.entropy == REF_KEY {
